@@ -173,7 +173,7 @@ class Impl:
                 snap["actual"] = None
                 self.fail("occupancy", f"cell.is_empty raised {type(ex).__name__}: {ex}")
             e = self.named("empty")
-            snap["empty"] = None if e is None else self.canon_arr("bool", np.asarray(e.data))
+            snap["empty"] = None if e is None else self.canon_arr(self.layers[self.lid_of(e)][1], np.asarray(e.data))
             snap["inst"] = {(k, c): self.canon("int", v) for c in self.cells for k, v in self.grid[c].__dict__.items()
                             if isinstance(v, bool | int | np.bool_ | np.integer)}
         else:
@@ -431,7 +431,8 @@ class Impl:
         if k == "empties":
             if new:
                 try:
-                    view = ",".join(map(str, self.canon_arr("bool", np.asarray(self.grid.empty.data))))
+                    e = self.grid.empty
+                    view = ",".join(map(str, self.canon_arr(self.layers[self.lid_of(e)][1], np.asarray(e.data))))
                 except AttributeError:
                     view = "none"
                 actual = "".join(str(int(self.grid[c].is_empty)) for c in self.cells)
